@@ -1,0 +1,13 @@
+//go:build verif
+
+package netlist
+
+import "net/netip"
+
+// VerifEntries returns a copy of the internal prefix slice and the sorted flag
+// (verification only).
+func (list *List) VerifEntries() ([]netip.Prefix, bool) {
+	out := make([]netip.Prefix, len(list.e))
+	copy(out, list.e)
+	return out, list.sorted
+}
